@@ -434,13 +434,21 @@ func (k Keeper) SetupExecutionContext(ctx sdk.Context, ethTx *ethtypes.Transacti
 	k.SetGasUsedForCurrentTxTransient(ctx, ethTx.Gas())
 
 	{
+		// the failed transaction consumes its whole gas limit,
+		// so its cumulative gas used is the gas used by all previous transactions plus its gas limit
+		assumeFailedCumulativeGasUsed := ethTx.Gas()
+		currentTxIdx := k.GetTxCountTransient(ctx) - 1
+		for prevTxIdx := uint64(0); prevTxIdx < currentTxIdx; prevTxIdx++ {
+			assumeFailedCumulativeGasUsed += k.GetGasUsedForTdxIndexTransient(ctx, prevTxIdx)
+		}
+
 		// manually construct the assume-failed receipt for the transaction
 		bzFailedReceipt := func() []byte {
 			failedReceipt := &ethtypes.Receipt{
 				Type:              ethTx.Type(),
 				PostState:         nil,
 				Status:            ethtypes.ReceiptStatusFailed,
-				CumulativeGasUsed: k.GetCumulativeLogCountTransient(ctx, false),
+				CumulativeGasUsed: assumeFailedCumulativeGasUsed,
 				Bloom:             ethtypes.Bloom{}, // compute below
 				Logs:              []*ethtypes.Log{},
 			}
